@@ -76,6 +76,16 @@ def check(ctx, rule: str = "name-resolution") -> None:
                               f"self[{spec}] (exact stored name first, first occurrence)", s))
     if not found:
         probs.append(("_resolve_column: string branch not found", rc.node))
+    vec_ok = False
+    for s in walk_stmts(rc.body):
+        if isinstance(s, ast.If) and short(s.test) == f"isinstance({spec}, Vector)":
+            vec_ok = len(s.body) == 1 and isinstance(s.body[0], ast.Return) and short(s.body[0].value) == spec
+            if not vec_ok:
+                probs.append((f"_resolve_column handles a Vector spec by `{short(s.body[0], 70)}`: a column given as a vector must be used "
+                              f"as given (a derived vector that keeps a column's name is NOT that column)", s))
+    for s in walk_stmts(rc.body):
+        if isinstance(s, ast.Assign) and any(isinstance(t, ast.Name) and t.id == spec for t in s.targets):
+            probs.append((f"_resolve_column rewrites its spec (`{short(s, 60)}`) before resolving it", s))
     for s in walk_stmts(rc.body):
         if isinstance(s, ast.Return) and s.value is not None and any(
                 isinstance(n, ast.Attribute) and n.attr in ("_column_map",) or
